@@ -371,7 +371,8 @@ def jobs(tier):
 
 BOUNDS = dict(
     quick='1-2 outputs; every pair of per-output time multisets of length '
-          '1..2 over 3 distinct values (ties included); error-model '
+          '1..2 over 3 distinct values (ties included); 6 schedules of 3-4 '
+          'times agreeing in length / end points and differing inside; error-model '
           'assignments rotated over the grid pairs plus all 16 on three grid '
           'pairs; every triple of error models with unequal parameter counts '
           'on 3 outputs and two assignments on 4 outputs (fixed grids); '
